@@ -16,7 +16,9 @@ pub const ELE: &str = "1.2.840.10008.1.2.1";
 pub const MAXIMUM: u32 = 4294967288;
 pub const DEFAULT_MAX: u32 = 32762;
 pub const MINIMUM: u32 = 1018;
-pub const IO_TIMEOUT: Duration = Duration::from_millis(3000);
+/// socket timeouts of the associations under test: generous, so that a loaded machine cannot turn a slow
+/// peer into a spurious transport error; only a genuine hang costs this much
+pub const IO_TIMEOUT: Duration = Duration::from_millis(30000);
 
 /// strip the DICOM UID padding (trailing NULs): the oracle's own notion of "the same UID"
 pub fn strip(u: &str) -> &str { u.trim_end_matches('\0') }
